@@ -53,6 +53,7 @@ def judge(prog: Any, ref: Any, run: dict[str, Any], info: dict[str, Any]) -> lis
 
 CHECK = DCheck("C03", PROFILE, judge, setup=setup, need_ref=False,
                nontrivial=lambda run, info: (run["faults"].get("reorder", 0) + run["faults"].get("injected_startstage", 0)) > 0)
+CHECK.w_share = 0.25
 run_one = CHECK.run_one
 replay_one = CHECK.replay_one
 _ = one_violation
